@@ -151,11 +151,42 @@ class SavePoints:
         self.loop = loop
         self.label = label
         self.viol = []
+        self.shared = None
         self.obs = {'roundtrips': 0, 'medium': {}, 'loader': {}, 'points': {}, 'stepper_states': 0, 'accessors_compared': 0, 'unsaveable': 0}
 
     def at(self, proc, point):
         V = judges.V
         self.obs['points'][point] = self.obs['points'].get(point, 0) + 1
+        saved = {}
+        try:
+            self._at(proc, point, saved)
+        finally:
+            self._shared_context(proc, point, saved)
+
+    def _shared_context(self, proc, point, saved):
+        """The bundles of this save point (one saved with the default loader, one with a custom loader recorded in it) loaded one
+        after the other through ONE load context that names no loader -- the context a caller keeps around for all its loads."""
+        V = judges.V
+        if len(saved) < 2:
+            return
+        if self.shared is None:
+            self.shared = plumpy.LoadSaveContext(loop=self.loop)
+        want = accessors(proc)
+        for lname in ('default', 'custom', 'default'):
+            try:
+                q = copy.deepcopy(saved[lname]).unbundle(self.shared)
+            except BaseException as exc:  # noqa: BLE001
+                self.viol.append(V('roundtrip-raised', 'roundtrip-raised:shared-context:%s:%s' % (lname, type(exc).__name__),
+                                   '%s: loading the bundle saved with the %s loader at %s through a load context used for other bundles before raised %r' % (self.label, lname, point, exc)))
+                continue
+            self.obs['shared_context_loads'] = self.obs.get('shared_context_loads', 0) + 1
+            have = accessors(q)
+            if have != want:
+                bad = sorted(k for k in set(want) | set(have) if want.get(k) != have.get(k))
+                self.viol.append(V('accessor-differs', 'accessor-differs:%s:shared-context:%s' % ('+'.join(bad), lname), '%s: process loaded through a reused load context differs in %s at %s' % (self.label, bad, point)))
+
+    def _at(self, proc, point, saved):
+        V = judges.V
         for lname in ('default', 'custom'):
             loader = None if lname == 'default' else c19.CountingLoader()
             sctx = plumpy.LoadSaveContext(loader=loader) if loader else None
@@ -165,6 +196,7 @@ class SavePoints:
             except BaseException as exc:  # noqa: BLE001
                 self.viol.append(V('save-raised', 'save-raised:%s:%s:%s' % (point, lname, type(exc).__name__), '%s: saving at %s raised %r' % (self.label, point, exc)))
                 return
+            saved[lname] = b1
             if 'stepper_state' in b1:
                 self.obs['stepper_states'] += 1
             want = accessors(proc)
